@@ -25,3 +25,58 @@
 (declare-fun sign (Int Int) Bool)
 (declare-fun coef (Int Int) Int)
 (declare-fun bexp (Int Int) Int)
+; ---- correct rounding as a checkable predicate (DESIGN.md section 4)
+; sticky pair (digit, trunc): x = sig + (digit + g)/10 with G(trunc, g).
+; For trunc = -1 (value just below) the deficit is less than half a guard-digit unit: every caller
+; that sets trunc = -1 divides at least two further digits away before rounding (see reduce128).
+(define-fun G ((t Int) (g Real)) Bool
+  (and (=> (= t 0) (= g 0.0)) (=> (= t 1) (and (< 0.0 g) (< g 1.0))) (=> (= t (- 1)) (and (< (- 0.5) g) (< g 0.0)))))
+(define-fun RS ((x Real) (sig Int) (trunc Int) (digit Int)) Bool
+  (and (<= 0 digit) (<= digit 9) (<= (- 1) trunc) (<= trunc 1) (<= 0 sig)
+       (G trunc (- (* 10.0 (- x (to_real sig))) (to_real digit)))))
+(define-fun even ((c Int)) Bool (= (mod c 2) 0))
+; x: exact magnitude in units of 10^e (e = biased exponent, unbounded above); c: candidate coefficient
+(define-fun Down ((x Real) (c Int) (e Int)) Bool
+  (and (<= (to_real c) x) (< x (to_real (+ c 1))) (or (= x (to_real c)) (= e 0) (>= c B110))))
+(define-fun Up ((x Real) (c Int) (e Int)) Bool
+  (and (< (to_real (- c 1)) x) (<= x (to_real c)) (or (= x (to_real c)) (= e 0) (> (* 10.0 x) (to_real M)))))
+(define-fun NearDown ((x Real) (c Int) (e Int) (away Bool)) Bool
+  (and (Down x c e) (or (< (- x (to_real c)) 0.5) (and (= (- x (to_real c)) 0.5) (not away) (even c)))))
+(define-fun NearUp ((x Real) (c Int) (e Int) (away Bool)) Bool
+  (and (Up x c e)
+       (ite (and (= c B110) (> e 0))
+            (or (< (- (to_real c) x) 0.05) (and (= (- (to_real c) x) 0.05) (or away (even c))))
+            (or (< (- (to_real c) x) 0.5) (and (= (- (to_real c) x) 0.5) (or away (even c)))))))
+(define-fun Near ((x Real) (c Int) (e Int) (away Bool)) Bool (or (NearDown x c e away) (NearUp x c e away)))
+(define-fun RndOK ((rm Int) (neg Bool) (x Real) (c Int) (e Int)) Bool
+  (and (<= 0 c) (<= c M) (>= e 0)
+       (ite (= rm 0) (Near x c e false)
+       (ite (= rm 1) (Near x c e true)
+       (ite (= rm 2) (Down x c e)
+       (ite (= rm 3) (Up x c e)
+       (ite (= rm 4) (ite neg (Up x c e) (Down x c e))
+                     (ite neg (Down x c e) (Up x c e)))))))))
+; quantisation at a fixed exponent (Round/Ceil/Floor): no finer-grid clause
+(define-fun QDown ((x Real) (c Int)) Bool (and (<= (to_real c) x) (< x (to_real (+ c 1)))))
+(define-fun QUp ((x Real) (c Int)) Bool (and (< (to_real (- c 1)) x) (<= x (to_real c))))
+(define-fun QNear ((x Real) (c Int) (away Bool)) Bool
+  (or (< (- x (to_real c)) 0.5) (= x (to_real c)) (and (= (- x (to_real c)) 0.5) (not away) (even c)))
+  )
+(define-fun QNearOK ((x Real) (c Int) (away Bool)) Bool
+  (and (< (- x (to_real c)) 1.0) (< (- (to_real c) x) 1.0)
+       (or (and (<= (to_real c) x) (or (< (- x (to_real c)) 0.5) (and (= (- x (to_real c)) 0.5) (not away) (even c))))
+           (and (<= x (to_real c)) (or (< (- (to_real c) x) 0.5) (and (= (- (to_real c) x) 0.5) (or away (even c))))))))
+(define-fun QuantOK ((rm Int) (neg Bool) (x Real) (c Int)) Bool
+  (and (<= 0 c)
+       (ite (= rm 0) (QNearOK x c false)
+       (ite (= rm 1) (QNearOK x c true)
+       (ite (= rm 2) (QDown x c)
+       (ite (= rm 3) (QUp x c)
+       (ite (= rm 4) (ite neg (QUp x c) (QDown x c))
+                     (ite neg (QDown x c) (QUp x c)))))))))
+; TH: x = sig + theta with theta = 0 / in (0,1) / in (-1,0) according to trunc (no guard digit extracted yet)
+(define-fun TH ((x Real) (sig Int) (t Int)) Bool
+  (and (<= (- 1) t) (<= t 1) (<= 0 sig)
+       (=> (= t 0) (= x (to_real sig)))
+       (=> (= t 1) (and (< (to_real sig) x) (< x (to_real (+ sig 1)))))
+       (=> (= t (- 1)) (and (< (to_real (- sig 1)) x) (< x (to_real sig))))))
